@@ -149,8 +149,10 @@ impl Prop for BoundDominates {
         if let Err(e) = oracle_self_check(case, &s.profile, &info, &mut m) {
             return finish(m, h, Verdict::Harness(e), traces);
         }
-        let d = st.d();
-        let tol = 1e-9 * d.max(1e-300);
+        // tolerance relative to the reach-weighted magnitude of the game, not to its payoff range
+        // (they differ by many orders of magnitude in a lottery game)
+        let tol = 2e-9 * case.game.mag().max(1e-300);
+        m.add("probe_lottery_game", (st.d() > 1e6 * case.game.mag()) as u64);
         m.nontrivial_key = Some(case.config_hash() ^ traces[0].hash());
         let early = s.total_bound < case.thresh;
         m.add("probe_early_stop_taken", early as u64);
